@@ -33,12 +33,29 @@ AdmMore  == Grid({NRef}, {NPeer}, {5, 8}, {14}, {0, 8}, {8, 9}, {2}, {2})
 AdmFew   == {Cfg(NRef, NPeer, 5, 14, 0, 9, 2, 2), Cfg(NRef, NPeer, 8, 14, 8, 8, 2, 2),
              Cfg(NRef, NPeer, 6, 11, 8, 8, 2, 1)}
 
-CfgsBoot == BootGrid
+\* start-up over the WHOLE word range of the three durations (W = 8: -128 .. 127;
+\* H/2 = 64 is where doubling a Duration starts to wrap): 0, 1, interval/2,
+\* interval/2 + 1, interval, H/2 - 1, H/2, H/2 + k, H - 1, negative values and
+\* the most negative word, every combination; factors and drift admissible, so
+\* that the durations alone decide
+WordNeg(x) == 0 - x
+BootWordCutoffs   == {WordNeg(128), 0, 127}
+BootWordIntervals == {WordNeg(128), WordNeg(1), 0, 1, 2, 8, 9, 63, 64, 65, 126, 127}
+BootWordTimeouts  == {WordNeg(128), WordNeg(64), WordNeg(1), 0, 1, 4, 5, 8, 9, 31, 32, 33, 62, 63, 64, 65,
+                      100, 126, 127}
+BootWord == Grid({1}, {1}, {6}, {11}, BootWordCutoffs, BootWordIntervals, BootWordTimeouts, {1})
+
+CfgsBoot == BootGrid \cup BootWord
 CfgsExh  == AdmBasic \cup BootGrid
 CfgsDeep == AdmBasic \cup AdmFew \cup BootGrid
 CfgsGen  == AdmBasic \cup AdmMore
 
 ASSUME \A c \in AdmBasic \cup AdmMore \cup AdmFew : Admissible(c)
+ASSUME \A c \in BootGrid \cup BootWord \cup AdmBasic \cup AdmMore \cup AdmFew : DurationsAreWords(c)
+ASSUME BootGrid \cap BootWord = {}
+\* the timeout test, every pair of words (SyncRound.tla, "Facts about the timeout test")
+ASSUME HalfFormIsStatement
+ASSUME DoubledFormWrapsOnUpperHalf
 
 \* ---- the local clock during one clk.Sleep call, in half intervals:
 \* slp = real time until Sleep returns (2 = on time), stp = step of the reading
@@ -76,7 +93,8 @@ BootOnly == round = 0 /\ ~refDone /\ ~peerDone
 \* ---- behaviour emitter (spec -> code)
 EmitBoot ==
   (phase \in {"panicked", "measure"} /\ round = 0 /\ ~refDone /\ ~peerDone) =>
-     PrintT(<<"CASE", ToJson([kind |-> "boot", cfg |-> cfg, refused |-> phase = "panicked",
+     PrintT(<<"CASE", ToJson([kind |-> IF cfg \in BootWord THEN "bootw" ELSE "boot",
+                              cfg |-> cfg, refused |-> phase = "panicked",
                               stated |-> StatedInadmissible(cfg), rounds |-> << >>])>>)
 EmitRun ==
   (phase = "asleep" /\ round = MaxRound) =>
